@@ -273,7 +273,9 @@ func genRegexPattern(depth int) *rapid.Generator[string] {
 			case 16, 17, 18:
 				// escaped metacharacters: brackets that open or close nothing, a
 				// backslash (also as the last thing before the closing delimiter)
-				return rapid.SampledFrom([]string{`\(`, `\)`, `\[`, `\]`, `\\`, `\.`, `\{`, `\}`, `\d`, `\|`, `\*`}).Draw(t, "escaped")
+				return rapid.SampledFrom([]string{`\(`, `\)`, `\[`, `\]`, `\\`, `\.`, `\{`, `\}`, `\d`, `\|`, `\*`,
+					// character classes with an escaped bracket inside, and nested bracket pairs
+					`[\]b]`, `[a\]]`, `[^\]]`, `[\[a]`, `[[:alpha:]]`, `[^[:upper:]b]`, `[\\\]]`}).Draw(t, "escaped")
 			case 0, 1, 2:
 				return "a"
 			case 3, 4:
